@@ -47,8 +47,8 @@ Print Assumptions C13_literal_handlers.
 (* the funnel: which exceptions raised at which stage surface as what *)
 Theorem C13_funnel : forall st x,
   (fst (surfaced st x) = OInvalid <-> x = XInvalid \/ (handled_in_parser x = true /\ st <> SVisit))
-  /\ (fst (surfaced st x) = OOther <-> x = XMemoryOrSystem)
-  /\ (fst (surfaced st x) = OInternal <-> x <> XInvalid /\ x <> XMemoryOrSystem /\ (handled_in_parser x = true -> st = SVisit))
+  /\ (fst (surfaced st x) = OOther <-> x = XSystemExit)
+  /\ (fst (surfaced st x) = OInternal <-> x <> XInvalid /\ x <> XSystemExit /\ (handled_in_parser x = true -> st = SVisit))
   /\ (fst (surfaced st x) <> OOther -> snd (surfaced st x) = true).
 Proof.
   intros. split; [apply funnel_invalid|]. split; [apply funnel_other|]. split; [apply funnel_internal|apply funnel_path].
@@ -73,15 +73,23 @@ Proof. exact repaired_leaks. Qed.
 Print Assumptions C13_repaired_leaks.
 
 (* What the funnel still does not handle: a RecursionError while visiting or in finalize becomes InternalError, an
-   OSError while the file is read becomes InternalError, and an exception raised outside every try block of
-   _read_definitions reaches the caller raw.  For the last one a witness exists on the implementation side
-   (a structure with 200 fields: RecursionError while hashing the new composite), so the unrestricted statement
-   of C13 is false of the current tree: this is its refutation in terms of the funnel. *)
+   OSError while the file is read becomes InternalError, an exception raised outside every try block of
+   _read_definitions reaches the caller raw, and a ValueError / OverflowError / MemoryError raised inside a visitor
+   or in finalize becomes InternalError.  Witnesses on the implementation side (open findings):
+     - a structure with 200 fields: raw RecursionError while hashing the new composite (F20);
+     - "@print 10**4300": ValueError of CPython's 4300-digit limit of int <-> str conversion, in a visitor; the same
+       from error messages built in finalize ("uint8 x / @extent 8*10**5000+1");
+     - "uint8[2**63] x / @print _offset_": OverflowError (or MemoryError) of the numerical expansion behind _offset_.
+   So the unrestricted statement of C13 is false of the current tree: this is its refutation in terms of the funnel. *)
 Theorem C13_unmodelled_leaks_refuted :
   surfaced SVisit XRecursion = (OInternal, true)
   /\ surfaced_outside_parser XOSError = (OInternal, true)
   /\ surfaced_outside_parser XRecursion = (OInternal, true)
-  /\ surfaced_outside_funnel XRecursion = (OOther, false).
+  /\ surfaced_outside_funnel XRecursion = (OOther, false)
+  /\ surfaced SVisit XValueError = (OInternal, true)
+  /\ surfaced_outside_parser XValueError = (OInternal, true)
+  /\ surfaced SVisit XOverflow = (OInternal, true)
+  /\ surfaced SVisit XMemoryOrSystem = (OInternal, true).
 Proof. exact remaining_leaks. Qed.
 Print Assumptions C13_unmodelled_leaks_refuted.
 
